@@ -89,7 +89,10 @@ Section Ranges.
     let '(cs, ce, ssps) := st in
     Ok (u32 (pos + naluLength), cs, ce, ssps).
 
-  Fixpoint pr_loop (fuel : nat) (sample : list N) (pos cs ce : N) (ssps : list ssp)
+  (* tail = true: the text since /repo 401deba (`clearEnd = uint32(length)` after the loop: what stands after the
+     last NAL unit - the length field of a final empty NAL unit, a 4-byte sample - is clear data);
+     tail = false: the text before it (kept because coq/c06 imports protect_ranges in an Example) *)
+  Fixpoint pr_loop_g (tail : bool) (fuel : nat) (sample : list N) (pos cs ce : N) (ssps : list ssp)
     : res (list ssp) :=
     match fuel with
     | O => OutOfFuel
@@ -97,15 +100,24 @@ Section Ranges.
         if pos <? u32 (lenN sample - 4) then
           do st <- pr_step sample pos cs ce ssps;
           let '(pos, cs, ce, ssps) := st in
-          pr_loop f sample pos cs ce ssps
-        else if cs <? ce then append_protect_range ssps (sub32 ce cs) 0
-        else Ok ssps
+          pr_loop_g tail f sample pos cs ce ssps
+        else
+          let ce := if tail then u32 (lenN sample) else ce in
+          if cs <? ce then append_protect_range ssps (sub32 ce cs) 0
+          else Ok ssps
     end.
+
+  Definition pr_loop := pr_loop_g false.
 
   (* func Get(AVC|HEVC)ProtectRanges(spsMap, ppsMap, sample, scheme).  Fuel: without 32-bit wrap every
      iteration advances pos by at least 4. *)
-  Definition protect_ranges (sample : list N) : res (list ssp) :=
-    if lenN sample <? 4 then Err else pr_loop (S (length sample)) sample 0 0 0 [].
+  Definition protect_ranges_g (tail : bool) (sample : list N) : res (list ssp) :=
+    if lenN sample <? 4 then Err else pr_loop_g tail (S (length sample)) sample 0 0 0 [].
+
+  (* the CURRENT text (401deba) *)
+  Definition protect_ranges_r := protect_ranges_g true.
+  (* the text before 401deba *)
+  Definition protect_ranges := protect_ranges_g false.
 End Ranges.
 
 (* func getAudioProtectRanges: (nil, nil) *)
